@@ -306,6 +306,36 @@ func runBuilder(c bCase) harness.Result {
 			o = append(o, obs{int(v.Field.Address), got, dev.Coil(int(c.FC)-1, int(v.Field.Address)), revBit(payload, i)})
 		}
 	}
+	// the request descriptor is a plain struct with exported fields: a caller may filter or reorder its Fields (or build one
+	// by hand). The value of a coil field must depend only on the start address and the field's address.
+	for _, r := range reqs {
+		if len(r.Fields) < 2 {
+			continue
+		}
+		reply := device.New(c.Seed).Answer(c.Framing, r.Bytes())
+		resp, err := parseResp(c.Framing, reply)
+		if err != nil {
+			continue
+		}
+		payload := dataOf(resp)
+		r2 := r
+		r2.Fields = nil
+		for i := len(r.Fields) - 1; i >= 1; i-- { // reversed, without the field at the start address
+			r2.Fields = append(r2.Fields, r.Fields[i])
+		}
+		fv, err := r2.ExtractFields(resp, c.Lenient)
+		if err != nil {
+			return harness.Fail("ExtractFields with the same request but its fields reordered failed: %v", err)
+		}
+		for _, v := range fv {
+			got, ok := v.Value.(bool)
+			if !ok || v.Error != nil {
+				return harness.Fail("reordered fields: field %s: value %v error %v", v.Field.Name, v.Value, v.Error)
+			}
+			i := int(v.Field.Address) - int(r.StartAddress)
+			o = append(o, obs{int(v.Field.Address), got, dev.Coil(int(c.FC)-1, int(v.Field.Address)), revBit(payload, i)})
+		}
+	}
 	for i := range c.Addrs {
 		if seen[fmt.Sprintf("c%d", i)] != 1 {
 			return harness.Fail("field c%d reported %d times", i, seen[fmt.Sprintf("c%d", i)])
